@@ -156,7 +156,12 @@ pub fn stages(ctx: &Ctx) -> Vec<Stage> {
         // grow with the amplitude and cap-limited steps reach 6-16 x tol h on correct code — that
         // is outside the class the property quantifies over, see DESIGN.md C02)
         let prob = IvpProblem::gen(&mut rng, n, fl);
-        let cfg = gen_cfg(&mut rng, solver, prob.lip, (-10.0, -3.0), (0.5, 2.3));
+        let mut cfg = gen_cfg(&mut rng, solver, prob.lip, (-10.0, -3.0), (0.5, 2.3));
+        if rng.chance(0.15) {
+            // a minimum step that is a sizeable fraction of the maximum: the last stretch before the
+            // end is then often shorter than dt_min, and it must still be integrated
+            cfg.dt_min = cfg.dt_max * rng.r(0.05, 0.4);
+        }
         let mode = if rng.bool() { DimMode::Static } else { DimMode::Dynamic };
         run_case(rep, solver, &prob, &cfg, mode);
     }));
